@@ -54,8 +54,9 @@ func runC20(tier string) int {
 		return 2
 	}
 	race := racePass(scratch)
+	harnessB := harnessBPass(ov, scratch, tier)
 	cmd := exec.Command(bin, tier)
-	cmd.Env = append(os.Environ(), "VERIF_DIR="+evid.VerifDir, "VERIF_C20_RACE="+race)
+	cmd.Env = append(os.Environ(), "VERIF_DIR="+evid.VerifDir, "VERIF_C20_RACE="+race, "VERIF_C20B="+harnessB)
 	cmd.Stdout, cmd.Stderr = os.Stdout, os.Stderr
 	if err := cmd.Run(); err != nil {
 		if ee, ok := err.(*exec.ExitError); ok {
@@ -101,6 +102,32 @@ func racePass(scratch string) string {
 	}
 	lg, _ := os.ReadFile(logf)
 	return fmt.Sprintf("ok: %s; %d tool invocations logged, no race reported", strings.TrimSpace(string(out)), strings.Count(string(lg), "\n"))
+}
+
+// harnessBPass drives cmd.saveOutputs itself (package main): the overlay adds a test file to
+// /repo/cmd and instruments cmd/gomacro.go (sync, go statements); `go test` runs it in /repo
+// without writing there. Returns the path of the JSON result, or "unavailable: ...".
+func harnessBPass(ov *overlay.Overlay, scratch, tier string) string {
+	if err := ov.Sync("/repo/cmd/gomacro.go", scratch); err != nil {
+		return "unavailable: instrumenting cmd/gomacro.go: " + err.Error()
+	}
+	ov.Replace["/repo/cmd/verif_c20b_test.go"] = filepath.Join(evid.VerifDir, "mc", "overlay", "files", "verif_c20b_test.go.txt")
+	ovPath, err := ov.Write(scratch)
+	if err != nil {
+		return "unavailable: " + err.Error()
+	}
+	out := filepath.Join(scratch, "c20b.json")
+	c := exec.Command("go", "test", "-overlay", ovPath, "-vet=off", "-count=1", "-run", "TestVerifC20B", "./cmd")
+	c.Dir = "/repo"
+	c.Env = append(os.Environ(), "GOFLAGS=-mod=readonly", "GOPROXY=off", "GOSUMDB=off", "GOTOOLCHAIN=local", "VERIF_C20B_OUT="+out, "VERIF_TIER="+tier)
+	if b, err := c.CombinedOutput(); err != nil {
+		return "unavailable: go test of harness B failed: " + trunc(string(b), 600)
+	}
+	b, err := os.ReadFile(out)
+	if err != nil {
+		return "unavailable: no result file"
+	}
+	return string(b)
 }
 
 func firstLine(s string) string {
